@@ -183,6 +183,7 @@ class LessLexer:
     def t_iselector_t_bopen(self, t):
         r'\{'
         t.lexer.pop_state()
+        t.lexer.in_property_decl = False
         return t
 
     def t_iselector_t_colon(self, t):
